@@ -89,14 +89,17 @@ PROPS = {
         "quick": [
             {"test": "TestC15Doc", "checks": 40000, "shards": 4},
             {"test": "TestC15Spaceless", "checks": 40000, "shards": 2},
+            {"test": "TestC15Sides", "checks": 30000, "shards": 2},
         ],
         "thorough": [
             {"test": "TestC15Doc", "checks": 2400000, "shards": 12},
             {"test": "TestC15Spaceless", "checks": 1600000, "shards": 4},
+            {"test": "TestC15Sides", "checks": 1200000, "shards": 4},
         ],
         "assumptions": [
             "verbatim blocks are not generated, and {# #} comments only between two non-whitespace characters of a text (next to a marker or a block tag neither C06 nor C15 decides what 'directly' means)",
-            "two-level hierarchies (extends + block override) are generated since the options are applied along the whole chain of parents (fix c.f. known_findings C04)",
+            "two- and three-level hierarchies (extends + block override, nested block) are generated since the options are applied along the whole chain of parents (fix c.f. known_findings C04)",
+            "which characters beyond space/tab/CR/LF a '-' takes is left open (C15.sides only demands that both sides agree with what each does alone and that only Unicode whitespace goes)",
             "spaceless: an HTML tag is '<', characters other than newline, '>' (the engine's own notion, pinned by spaceless.tpl)",
         ],
     },
